@@ -511,12 +511,15 @@ def gen_obs(rng, msg, gate, n_units):
     return obs
 
 
-def gen_vector_case(rng, share=False):
+def gen_vector_case(rng, share=False, twin=False):
     k = rng.randint(1, 6)
     specs = []
     for _ in range(k):
         fam = rng.choice(FAMILIES)
         specs.append(GEN[fam](rng)[0])
+    if twin:         # equal but distinct: two prior objects with identical parameters are two entries of the vector
+        specs.insert(rng.randint(0, k), dict(rng.choice(specs)))
+        k += 1
     order = list(range(k))
     rng.shuffle(order)
     us = [rng.choice([rng.random(), rng.random(), rng.choice(SPECIAL_U)]) for _ in range(k)]
@@ -583,7 +586,7 @@ def gen_cases(ctx):
             # histories, by construction; every derivation happens AFTER the prior was used (driver: pre_use)
             cases.append(gen_prior_case(rng, fam, n_units, derived=(k % 4 == 3), force={3: "set_limits", 7: "with_message", 11: "set_limits", 15: "with_message"}.get(k)))
     for k in range(160 if thorough else 40):
-        cases.append(gen_vector_case(rng, share=(k % 3 == 0)))
+        cases.append(gen_vector_case(rng, share=(k % 3 == 0), twin=(k % 3 == 1)))
     return cases
 
 
@@ -985,7 +988,7 @@ def oracle_prior(c, r):
     for o, x in typed:
         t = o["t"]
         ut = o.get("ut") or o.get("via") or "negative-zero"
-        what = "%s(%s %r)" % ({"raw": "message.value_for", "value": "value_for", "unit": "unit_value_for"}[t], ut,
+        what = "float(prior), i.e. value_for(0.5)," if o.get("via") == "float" else "%s(%s %r)" % ({"raw": "message.value_for", "value": "value_for", "unit": "unit_value_for"}[t], ut,
                               unhex(o["x"] if t == "unit" else o["u"]))
         if t == "unit":
             ref = unit_at.get(o["x"], "missing")
@@ -1233,11 +1236,15 @@ def case_key(c):
 def run(ctx):
     ctx.rule = ("a case is one prior (family uniform / log-uniform / gaussian / log-gaussian, finite parameters, limits incl. far "
                 "tails, tiny widths, >14-decimal limits, up to 600 decades; built by its constructor or derived through "
-                "with_limits / new / from_dict / pickle / deepcopy) with a sorted set of unit values (0, 1, 2^-53, 1-2^-53, "
-                "denormals, grid, random, last-bit neighbours, a few malformed; float / int / numpy scalars) observed through "
+                "with_limits / new / from_dict / pickle / deepcopy / with_message / in-place re-assignment of the limits, every "
+                "derivation AFTER the prior was used) with a sorted set of unit values (0, 1, -0.0, 2^-53, 1-2^-53, denormals, grid, "
+                "random, last-bit neighbours, dyadic values deep in both tails, a few malformed; float / int / bool / numpy float64 "
+                "/ 0-d array / 1-element array / binary32 scalar and array) observed through "
                 "message.value_for, Prior.value_for (limits enforced by default argument or keyword / ignored), unit_value_for "
-                "round trips, lower/upper_unit_limit and seeded Prior.random (default and explicit bounds); or one Collection of "
-                "1-6 priors through vector_from_unit_vector.  A prior case is non-trivial when it carries >= 8 distinct unit "
+                "round trips, float(prior), the cdf deep in both tails, lower/upper_unit_limit (and unit_value_for of the limits) and "
+                "seeded Prior.random (default and explicit bounds); every observation is asked again of the same object "
+                "afterwards, of a fresh object, and (derived priors) of the prior derived from; or one Collection of "
+                "1-7 priors (some under several attribute names, some equal but distinct) through vector_from_unit_vector.  A prior case is non-trivial when it carries >= 8 distinct unit "
                 "values strictly inside (0,1); a vector case when it has >= 2 priors whose attribute order differs from id "
                 "order; distinct = distinct abstract input (prior parameters + derivation + observations)")
     ctx.trusted = [
@@ -1261,6 +1268,16 @@ def run(ctx):
         "the property oracle compares with stdlib references (statistics.NormalDist, math.erfc); it demands a RETURN whenever the "
         "declared quantile lies inside the limits (unit margin 1e-9 relative + 2.3e-16 above 6e-8), compares tails in score "
         "space relative to |z|, and demands that random() does not raise on a non-empty unit window; a search aid, not evidence",
+        "sweep clauses of the oracle: (unit-type) the same number as numpy float64 / 0-d array / 1-element array / int / bool / "
+        "-0.0 gives the bit-identical answer (1-element arrays through the log families: 4 ulp, numpy's vectorised 10**x / exp / "
+        "log loops), as binary32 the answer within 2^-23 + 2^-22 |z| pdf(z) in unit space plus conditioning; (unit-tail) the cdf "
+        "of the normal families deep in both tails relative to the tail probability (1e-12 + (|z|+1) * conditioning); (inverse) "
+        "unit_value_for(value_for(u)) = u relative to min(u, 1-u) with the Mills-ratio condition number, absolute 2^-53 granted "
+        "only above 1/2 or when 1-u is inexact; (history) identical answers when asked again, from a fresh object and from the "
+        "prior derived from; (unit-limits-route) lower/upper_unit_limit = unit_value_for(lower/upper_limit) bit for bit.  "
+        "UniformPrior.value_for of an array with a dimension raises TypeError (Python round()) on the pinned tree: such unit "
+        "values reach uniform priors through message.value_for only.  LogGaussianPrior.with_message leaves the prior's own "
+        "mean / sigma attributes at the old values (mapping, cdf and draws follow the new message): not compared",
         "UniformPrior.value_for is modelled as repaired in 9c8aefe (code_variant = Repaired), LogUniformPrior's scale as "
         "repaired in e638353 (loguniform_variant = LURatioGuard), with_limits as an ordinary constructor call since d755794; "
         "the theorems named C02_before_fix_* and the Witness examples named *_legacy* describe the code before those commits "
@@ -1302,6 +1319,7 @@ def run(ctx):
         else:
             ctx.hist("vector-size", len(c["priors"]))
             ctx.hist("vector-shared-paths", len(c.get("share", [])))
+            ctx.hist("vector-equal-but-distinct-priors", len(c["priors"]) - len({json.dumps(q, sort_keys=True) for q in c["priors"]}))
         if "exc" in r:
             ctx.oracle["failures"] += 1
             ctx.failure("oracle", "driver raised: %s" % json.dumps(r)[:300], c, impl=r)
@@ -1388,9 +1406,15 @@ MANIFEST = {
             "random draws, derived priors, vector_from_unit_vector): monotonicity, cdf-inverse, declared quantile, limit gate, "
             "end points and never-raising random draws for all parameters and all unit values in (0,1) over the reals (special "
             "functions as hypotheses), a by-induction theorem for arbitrary transform stacks, the rounding/gate interplay over Q; "
+            "the prior OBJECT as a state machine (uses, in-place re-assignment of the limits, an arbitrary memo): for every sound "
+            "memo policy every history answers as the memo-less object, each answer a function of (message, limits in force, "
+            "query) only, returned values within the limits in force; a memo keyed by the query alone refuted; "
             "the same Gallina terms instantiated with binary64 + oracle tables from scipy are compared bit-for-bit (vm_compute) with "
             "the running code, plus a direct property oracle with stdlib references that demands a return wherever the declared "
-            "quantile lies inside the limits, on every generated case",
+            "quantile lies inside the limits, on every generated case; every case also carries use / derive-or-change / use-again "
+            "histories compared with fresh objects, the same unit value in numpy containers and binary32, dyadic unit values and "
+            "cdf points deep in both tails with condition-number-scaled relative tolerances, shared and equal-but-distinct priors "
+            "in vectors",
     "note": "Trusted: Coq kernel + vm_compute + stdlib Reals axioms, the harness, scipy/numpy special functions (hypotheses over R; "
             "oracle tables in the correspondence). The theorems are over exact reals: in binary64 the property still fails in two "
             "recorded ways (known findings with float witnesses: lower-tail cancellation of the normal quantile below 6e-8, "
